@@ -2740,6 +2740,14 @@ LEAN_OBLIGATIONS.update({
                             "error, a ParserError, one of two AssertionError sites, or fuel exhaustion; NOT yet proved: those two AssertionError sites are unreachable and the "
                             "parser's fuel suffices (covered by T2:parse on the malformed streams); error positions inside the text: oracle only"],
     ),
+    "C13": dict(
+        modules=["Tumfl.Props.C13"],
+        obligations=["Tumfl.Props.C13_emit_on", "Tumfl.Props.C13_emit_off", "Tumfl.Props.C13_placement"],
+        extractors=["FmtTables", "Brackets"],
+        tie_names=["T2:format (comment pieces through every stage to the final text)", "T2:parse (comment lists on statement tokens)"],
+        partial_hypotheses=["emission stage only, under the explicit hypothesis TreeWF (no name/numeral spelling starts with `--`, no chunk directly under if/repeat); "
+                            "that parser output satisfies TreeWF and that layout and final text keep the comment pieces: T2 and oracle streams"],
+    ),
     "C20": dict(
         modules=["Tumfl.Props.C16"],
         obligations=["Tumfl.Props.C16_positions"],
